@@ -74,6 +74,15 @@ func (t *SafeState) merge(s sm.State, r Role) {
 		return
 	}
 
+	allRoles := r.GetRoles()
+	if len(allRoles) > 0 {
+		// The incoming state was read by the caller before it got hold of our lock, and the child may have moved on
+		// since then (updates of different tasks arrive concurrently): a stale ERROR or MIXED must not stick, so we
+		// always recompute from the children.
+		t.state = aggregateState(allRoles)
+		return
+	}
+
 	switch {
 	case s == sm.MIXED && t.state != sm.ERROR:
 		t.state = sm.MIXED
@@ -82,7 +91,6 @@ func (t *SafeState) merge(s sm.State, r Role) {
 		t.state = sm.ERROR
 		return
 	default:
-		allRoles := r.GetRoles()
 		t.state = aggregateState(allRoles)
 	}
 }
